@@ -274,7 +274,10 @@ pub async fn read_http_request<const BUF_SIZE: usize>(
     }
     let content_length = match head.headers.get_all("content-length").as_slice() {
         [] => None,
-        [s] => Some(s.parse().map_err(|_| HttpError::InvalidContentLength)?),
+        // Content-Length = 1*DIGIT.  `u64::from_str` also accepts a leading '+'.
+        [s] if s.bytes().all(|b| b.is_ascii_digit()) => {
+            Some(s.parse().map_err(|_| HttpError::InvalidContentLength)?)
+        }
         _ => return Err(HttpError::InvalidContentLength),
     };
     #[allow(clippy::match_same_arms)]
